@@ -370,9 +370,15 @@ def _payload(ctx, master):
                     cval = val
     cdefs = M.leaf_defs(defs, cval.id) if isinstance(cval, ast.Name) \
         else ([cval] if cval is not None else [])
+    leaves = []
+    for v in cdefs:
+        v = K.rexpr(pdata, v)
+        # the count or nothing, chosen by a conditional expression
+        leaves.extend([v.body, v.orelse] if isinstance(v, ast.IfExp)
+                      else [v])
     ok = cnt[0] is not None and any(
         K.rtxt(pdata, v).endswith('identity_group_ref.count')
-        for v in cdefs)
+        for v in leaves)
     ctx.ob('C09.2', pdata, cnt[1], ok,
            "record key 'identity_count' is the group's count",
            construct='record key identity_count')
